@@ -7,6 +7,8 @@ import (
 	"go/types"
 	"sort"
 
+	"golang.org/x/tools/go/cfg"
+
 	"rocheck/internal/check"
 	"rocheck/internal/load"
 	"rocheck/internal/model"
@@ -371,6 +373,187 @@ func ruleRefcountPairing() check.Rule {
 	}
 }
 
+// pathsPassBefore reports whether every CFG path from the entry of body to target contains, before target,
+// a node for which isDecision holds.
+func pathsPassBefore(body *ast.BlockStmt, target ast.Node, isDecision func(ast.Node) bool) bool {
+	g := cfg.New(body, func(*ast.CallExpr) bool { return true })
+	if len(g.Blocks) == 0 {
+		return false
+	}
+	var tb *cfg.Block
+	ti := -1
+	best := token.Pos(-1)
+	for _, b := range g.Blocks {
+		for i, n := range b.Nodes {
+			if n.Pos() <= target.Pos() && target.End() <= n.End() {
+				if span := n.End() - n.Pos(); best < 0 || span < best {
+					best, tb, ti = span, b, i
+				}
+			}
+		}
+	}
+	if tb == nil {
+		return false
+	}
+	seen := map[int32]bool{}
+	ok := true
+	var dfs func(b *cfg.Block)
+	dfs = func(b *cfg.Block) {
+		if !ok || seen[b.Index] {
+			return
+		}
+		seen[b.Index] = true
+		limit := len(b.Nodes)
+		if b == tb {
+			limit = ti
+		}
+		for _, n := range b.Nodes[:limit] {
+			if isDecision(n) {
+				return
+			}
+		}
+		if b == tb {
+			ok = false
+			return
+		}
+		for _, sc := range b.Succs {
+			dfs(sc)
+		}
+	}
+	dfs(g.Blocks[0])
+	return ok
+}
+
+// RESET-BEFORE-TERMINAL
+func ruleResetBeforeTerminal() check.Rule {
+	return check.Rule{
+		Name: "RESET-BEFORE-TERMINAL",
+		Doc:  "in the terminal slots of Share's proxy observer the reset decision (the call of the reset closure under the mutex, or the store of the has-been-reset flag) is taken on every path before the terminal is broadcast to the subject: a subscriber that arrives while (or after) the terminal is delivered finds the connection already reset, and a subscriber that leaves because of the terminal finds the flag already set",
+		Run: func(c *check.Ctx) {
+			m := c.M
+			sc, app := shareApp(m)
+			if sc == nil {
+				c.Undecided("ro.ShareWithConfig/anchor", m.Obj.Ro.Syntax[0].Pos(), "ShareWithConfig not found")
+				return
+			}
+			p := sc.Pkg
+			info := p.TypesInfo
+			locals := directLocals(info, app)
+			// reset-like closures: local closures of the application literal that assign nil to an application-level variable
+			resetLike := map[types.Object]bool{}
+			for v := range locals {
+				for _, d := range m.Defs[v] {
+					lit, isLit := ast.Unparen(d.Expr).(*ast.FuncLit)
+					if d.Expr == nil || !isLit {
+						continue
+					}
+					ast.Inspect(lit.Body, func(x ast.Node) bool {
+						as, isAs := x.(*ast.AssignStmt)
+						if !isAs || len(as.Lhs) != len(as.Rhs) {
+							return true
+						}
+						for i, l := range as.Lhs {
+							lid, isID := ast.Unparen(l).(*ast.Ident)
+							rid, isRID := ast.Unparen(as.Rhs[i]).(*ast.Ident)
+							if !isID || !isRID {
+								continue
+							}
+							if wv, isVar := objOf(info, lid).(*types.Var); isVar && locals[wv] {
+								if _, isNil := info.Uses[rid].(*types.Nil); isNil {
+									resetLike[v] = true
+								}
+							}
+						}
+						return true
+					})
+				}
+			}
+			isDecision := func(n ast.Node) bool {
+				found := false
+				ast.Inspect(n, func(x ast.Node) bool {
+					switch y := x.(type) {
+					case *ast.FuncLit:
+						return false
+					case *ast.CallExpr:
+						if id, isID := ast.Unparen(y.Fun).(*ast.Ident); isID && resetLike[objOf(info, id)] {
+							found = true
+						}
+						if cl := model.Callee(info, y); cl != nil && cl.Pkg() != nil && cl.Pkg().Path() == "sync/atomic" && len(y.Args) > 0 {
+							if id, _ := rootIdent(y.Args[0]); id != nil {
+								if v, isVar := objOf(info, id).(*types.Var); isVar && locals[v] {
+									found = true
+								}
+							}
+						}
+					case *ast.AssignStmt:
+						for _, l := range y.Lhs {
+							if id, isID := ast.Unparen(l).(*ast.Ident); isID {
+								if v, isVar := objOf(info, id).(*types.Var); isVar && locals[v] {
+									found = true
+								}
+							}
+						}
+					}
+					return !found
+				})
+				return found
+			}
+			n := 0
+			for _, s := range sc.SubSites {
+				if s.Source == nil || s.Source.Kind != model.AVParam {
+					continue
+				}
+				obs := s.Observer
+				if obs == nil || obs.Kind != model.AVObserver {
+					c.Undecided("ro.ShareWithConfig/proxy", s.Pos, "the observer subscribed to the source is not a recognisable three-slot observer")
+					continue
+				}
+				for idx, name := range []string{"", "error", "complete"} {
+					if idx == 0 {
+						continue
+					}
+					slot := obs.Slots[idx]
+					key := "ro.ShareWithConfig/proxy-" + name
+					if slot == nil || slot.Kind != model.AVFunc || slot.Lit == nil {
+						c.Undecided(key, s.Pos, "the %s slot of Share's proxy observer is not a function literal", name)
+						continue
+					}
+					var terminals []*ast.CallExpr
+					ast.Inspect(slot.Lit.Body, func(x ast.Node) bool {
+						call, isCall := x.(*ast.CallExpr)
+						if !isCall {
+							return true
+						}
+						if mn, isObs := m.Obj.ObserverMethods[model.Callee(info, call)]; isObs {
+							if notifKind(mn) == idx {
+								terminals = append(terminals, call)
+							}
+						}
+						return true
+					})
+					if len(terminals) == 0 {
+						c.Violation(key, slot.Lit.Pos(), "the %s slot of Share's proxy observer does not forward the terminal to the subject", name)
+						continue
+					}
+					n++
+					bad := false
+					for _, t := range terminals {
+						if !pathsPassBefore(slot.Lit.Body, t, isDecision) {
+							bad = true
+							c.Violation(key, t.Pos(), "the %s is broadcast to the subject on a path where the reset decision (reset under the mutex / has-been-reset flag) has not been taken yet: a subscriber arriving during the broadcast joins the terminated execution, and one leaving because of it races with the flag", name)
+							break
+						}
+					}
+					if !bad {
+						c.OK(key, slot.Lit.Pos(), "every path takes the reset decision before broadcasting the %s", name)
+					}
+				}
+			}
+			c.Inc("share_terminal_slots", n)
+		},
+	}
+}
+
 // CONNECTABLE-GUARDED
 func ruleConnectableGuarded() check.Rule {
 	return check.Rule{
@@ -472,13 +655,13 @@ func C11() *check.Property {
 		Title:    "Sharing keeps one upstream subscription and follows the reference count",
 		Patterns: CorePatterns,
 		Scope:    []string{ro},
-		Rules:    []check.Rule{ruleShareGuarded(), ruleSingleConnect(), ruleRefcountPairing(), ruleConnectableGuarded(), ruleShareReplayConfig()},
+		Rules:    []check.Rule{ruleShareGuarded(), ruleSingleConnect(), ruleRefcountPairing(), ruleResetBeforeTerminal(), ruleConnectableGuarded(), ruleShareReplayConfig()},
 		Explanation: "Structural clauses only; event histories are NOT decided. The discipline that makes 'at most one live upstream subscription' true is checked: Share's connection state (subject, upstream subscription, reference count) is only touched under its mutex, " +
 			"with the 'requires lock' closures inferred from their call sites (lock-set data-flow); the upstream subscribe site is confined to the path on which a new subject was installed; the reference count is incremented/decremented exactly once per subscription/unsubscription under the mutex " +
 			"and the zero test follows the decrement in the same region; the connectable observable subscribes its source under its mutex only when no live connection exists, and its mutable fields are guarded; ShareReplay's configuration is what its name says.",
 		NotDecided:  "the behaviour over sequences of subscribe/unsubscribe/notification/connect events (reset options, replay contents); that 'join the running execution' delivers the same notifications to all subscribers (follows from the subject rules of C10).",
 		Assumptions: []string{"sync.Mutex semantics", "subjects honour C10"},
-		Floors:      map[string]int{"share_variables": 3, "connect_sites": 2, "refcount_ops": 2, "field_accesses": 8},
+		Floors:      map[string]int{"share_variables": 3, "connect_sites": 2, "refcount_ops": 2, "field_accesses": 8, "share_terminal_slots": 2},
 	}
 }
 
